@@ -77,7 +77,7 @@ CHECKS.update({
    design_ref="DESIGN.md §6.3", note=PROOF_NOTE,
    technique="Lean 4 theorems (layout-carrying CST, listener port) + independent renderer oracle + differential correspondence"),
  "C09": dict(category="proof",
-   text="PARTIAL PROOF (listener half). Proved for EVERY parse tree of any shape, grammatical or error-recovered: the listener's error log only grows during the walk (walk_grows, all 20 callbacks), and a model is returned only if ANTLR reported nothing and the log is empty at the end (any_error_voids_result) - so an error raised at any position or depth voids the result. A relation declaration whose name is already defined raises an error whatever surrounds it and no continuation of the walk can end with an empty log (duplicate_relation_rejected_anywhere); an accepted declaration is reflected in the model with exactly its denotation and no earlier relation is lost (declaration_reflected). The grammar half (mixed operators, direct assignment not first, empty/ill-formed restriction, headers, container types) is a property of the ANTLR parser and is NOT proved: it is covered by the 11-kind catalogue of violations injected at random sites, depths and layouts on the real parser, and by C19's automaton equalities.",
+   text="PARTIAL PROOF (listener half). Proved for EVERY parse tree of any shape, grammatical or error-recovered: the listener's error log only grows during the walk (walk_grows, all 20 callbacks), and a model is returned only if ANTLR reported nothing and the log is empty at the end (any_error_voids_result) - so an error raised at any position or depth voids the result. A relation declaration whose name is already defined raises an error whatever surrounds it and no continuation of the walk can end with an empty log (duplicate_relation_rejected_anywhere); an accepted declaration is reflected in the model with exactly its denotation and no earlier relation is lost (declaration_reflected). The grammar half (mixed operators, direct assignment not first, empty/ill-formed restriction, headers, container types): every parse tree the real parser accepts without error is checked at run time to be a derivation by the grammar translated from OpenFGAParser.g4 on this run, and every relation declaration in it to be the embedding of a typed CST, in which those violations are unrepresentable - an operator group has one operator (partials_single_operator), the relation parsed has no missing operand and at most one direct assignment, in first position (accepted_declaration_structurally_valid), a restriction list is non-empty (direct_assignment_nonempty); so an ACCEPTED document cannot contain them. NOT proved: that ANTLR reports an error for every text outside the grammar in the first place - exercised by the 11-kind catalogue of violations injected at random sites, depths and layouts on the real parser.",
    design_ref="DESIGN.md §6.9", note=PROOF_NOTE,
    technique="Lean 4 theorems over all trees (error-log monotonicity) + injected-violation oracle + differential correspondence"),
 })
